@@ -492,13 +492,65 @@ BUILTINS = [
 ]
 
 
+SIGNATURES = {
+    "filter_keyvals": ["events", "key", "vals"], "exclude_keyvals": ["events", "key", "vals"], "filter_keyvals_regex": ["events", "key", "regex"],
+    "filter_period_intersect": ["events", "events2"], "period_union": ["events", "events2"], "limit_events": ["events", "count"],
+    "merge_events_by_keys": ["events", "keys"], "chunk_events_by_key": ["events", "key"], "sort_by_timestamp": ["events"], "sort_by_duration": ["events"],
+    "sum_durations": ["events"], "concat": ["events", "events2"], "union_no_overlap": ["events", "events2"], "flood": ["events"],
+    "split_url_events": ["events"], "simplify_window_titles": ["events", "titlekey"], "categorize": ["events", "rules"], "tag": ["events", "tags"],
+    "query_bucket": ["bucket"], "query_bucket_eventcount": ["bucket"], "find_bucket": ["filter"],
+}
+PLAIN = {"events": EV("b1"), "events2": EV("b2"), "key": K("k"), "vals": L(K("v0")), "regex": K("v[01]"), "count": K(2), "keys": L(K("k")), "titlekey": K("title"),
+         "rules": RULES, "tags": TAGS, "bucket": K("b1"), "filter": K("b")}
+NESTED = {
+    "events": [F("concat", EV("b1"), L()), F("limit_events", F("sort_by_timestamp", EV("b1")), K(9))],
+    "events2": [F("concat", L(), EV("b2")), F("sort_by_duration", EV("b2"))],
+    "key": [V("kk")], "titlekey": [V("tk")], "regex": [V("rx")],
+    "vals": [L(K("v1"), St(1)), V("vv")],
+    "count": [I(1), F("nop")],
+    "keys": [L(K("k"), K("title")), V("ks")],
+    "rules": [V("rules")], "tags": [V("tags")],
+    "bucket": [F("find_bucket", K("b2")), V("bn")],
+    "filter": [V("fs")],
+}
+PRELUDE = [("kk", K("k")), ("tk", K("title")), ("rx", K("v0")), ("vv", L(K("v0"), K("v1"))), ("ks", L(K("k"))), ("rules", RULES), ("tags", TAGS), ("bn", K("b1")), ("fs", K("b1"))]
+
+
+def generated_shapes():
+    """every built-in with, in turn, each argument position replaced by a nested call / a variable /
+    a literal with symbolic leaves (the other arguments plain)"""
+    out = []
+    for fname, sig in sorted(SIGNATURES.items()):
+        for pos, kind in enumerate(sig):
+            for alt in NESTED.get(kind, []):
+                args = [PLAIN[k] for k in sig]
+                args[pos] = alt
+                used = set()
+
+                def walk(n):
+                    if n[0] == "var":
+                        used.add(n[1])
+                    elif n[0] == "call":
+                        [walk(a) for a in n[2]]
+                    elif n[0] == "list":
+                        [walk(a) for a in n[1]]
+
+                [walk(a) for a in args]
+                prog = [(nm, e) for nm, e in PRELUDE if nm in used] + [(R, F(fname, *args))]
+                out.append(prog)
+    return out
+
+
 def harnesses(tier):
     c17.install()
     hs = []
     fams = [("literals", LITERALS), ("variables", VARIABLES), ("calls", CALLS), ("builtins", BUILTINS)]
     modes = ["none", "single", "sym1"] if tier == "quick" else ["none", "single", "sym1", "sym2"]
+    fams.append(("generated-argument-positions", generated_shapes()))
     for fname, shapes in fams:
         for ws in modes:
+            if fname == "generated-argument-positions" and ws not in ("none", "sym1"):
+                continue
             if fname == "builtins" and ws in ("sym2",):
                 continue
             hs.append((Harness(PROP, "%s-ws-%s" % (fname, ws), h_program, dict(shapes=shapes, ws=ws),
@@ -521,6 +573,7 @@ def meta(chk, tier):
         "reference evaluator is independent of aw_query.functions: own table of 22 built-ins calling aw_transform / Bucket methods directly on deep copies of the evaluated arguments",
         "strings containing ';' or a backslash are outside the property's quantifier",
         "programs that re-read a variable after passing it to an in-place transform are not generated (the property does not speak about purity of built-ins)",
+        "generated shapes: every built-in with each argument position in turn replaced by a nested call, a variable or a literal with symbolic leaves",
         "program shapes beyond the listed ones are outside the claim",
     ]
 
